@@ -583,6 +583,73 @@ func (r *treeRun) checkAfter(in *inst, k int64, j int) string {
 	return ""
 }
 
+// probeCursor checks a cursor obtained by key against the reference order.
+func (r *treeRun) probeCursor(in *inst, k int64, sel int) string {
+	i, present := in.m.find(k)
+	c := in.t.Cursor(Key{K: k, Tag: -3})
+	if c.Valid() != present {
+		return r.errf("Cursor(%s).Valid() = %v, reference says present = %v", kstr(k), c.Valid(), present)
+	}
+	if !present {
+		if c.Key() != (Key{}) {
+			return r.errf("Cursor(%s) of an absent key has Key() = %v", kstr(k), c.Key())
+		}
+		return ""
+	}
+	ks := in.m.ks
+	if c.Key() != ks[i] {
+		return r.errf("Cursor(%s).Key() = %v, reference holds %v", kstr(k), c.Key(), ks[i])
+	}
+	if c.HasNext() != (i+1 < len(ks)) || c.HasPrev() != (i > 0) {
+		return r.errf("Cursor(%s): HasNext/HasPrev = %v/%v at rank %d of %d", kstr(k), c.HasNext(), c.HasPrev(), i, len(ks))
+	}
+	// the subtree below the cursor is a contiguous ascending window containing k
+	var win []Key
+	c.Inorder(func(x Key) bool { win = append(win, x); return true })
+	lo := -1
+	for j, x := range win {
+		if x == ks[i] {
+			lo = i - j
+		}
+	}
+	if lo < 0 || lo+len(win) > len(ks) {
+		return r.errf("Cursor(%s).Inorder = %s does not contain the key at a position consistent with the set", kstr(k), brief(win))
+	}
+	for j, x := range win {
+		if x != ks[lo+j] {
+			return r.errf("Cursor(%s).Inorder[%d] = %v, the set has %v there", kstr(k), j, x, ks[lo+j])
+		}
+	}
+	if got := c.Clone().Min().Key(); got != ks[lo] {
+		return r.errf("Cursor(%s).Min() = %v, subtree minimum is %v", kstr(k), got, ks[lo])
+	}
+	// walk a few steps in one direction
+	steps := sel%5 + 1
+	w := c.Clone()
+	for s, j := 0, i; s < steps; s++ {
+		if sel%2 == 0 {
+			w.Next()
+			j++
+		} else {
+			w.Prev()
+			j--
+		}
+		if j < 0 || j >= len(ks) {
+			if w.Valid() {
+				return r.errf("cursor from %s is still valid at %v after walking off the end", kstr(k), w.Key())
+			}
+			break
+		}
+		if !w.Valid() || w.Key() != ks[j] {
+			return r.errf("cursor from %s after %d steps (forward=%v) is at %v (valid=%v), reference has %v", kstr(k), s+1, sel%2 == 0, w.Key(), w.Valid(), ks[j])
+		}
+	}
+	if c.Key() != ks[i] {
+		return r.errf("moving a Clone moved the original cursor to %v", c.Key())
+	}
+	return ""
+}
+
 // twoChildKeys lists (in order) the keys of nodes having both children.
 func twoChildKeys(t *stree.Tree[Key]) []int64 {
 	var out []int64
@@ -683,6 +750,17 @@ func (r *treeRun) apply(op Op) string {
 		return r.checkAfter(in, k, op.B)
 	case "afterAbsent":
 		return r.checkAfter(in, in.absentNear(op.A), op.B)
+	case "cursor", "cursorI":
+		// a light cursor probe in the middle of a history (clones and edits
+		// around it): Cursor(key), then Next / Prev / Min / Inorder against the
+		// reference order.  The thorough structural checks live in C03.
+		k := baseKey(op.A % 48)
+		if op.Kind == "cursorI" {
+			if kk, ok := in.ith(op.A); ok {
+				k = kk
+			}
+		}
+		return r.probeCursor(in, k, op.B)
 	case "asc", "desc", "zig", "ascL", "descL":
 		n := op.A%40 + 1
 		kind := op.Kind
